@@ -87,7 +87,7 @@ def _reparse_raw_base(
         copy = copy_root.child_from_path(path)
 
         if not copy:
-            raise RuntimeError('could not find node after reparse')  # pragma: no cover
+            raise NodeError('could not find node after reparse')  # the node was commented out or deleted altogether
 
         root._put_src(new_lines, ln, col, end_ln, end_col, True, True, self if set_ast else None)  # we do this again in our own tree to offset our nodes which aren't being moved over from the modified copy, can exclude self if setting ast because it overrides self locations
 
@@ -308,7 +308,14 @@ def _reparse_raw(self: fst.FST, code: Code | None, ln: int, col: int, end_ln: in
 
     new_lines = _code_as_lines(code)
 
-    if not _reparse_raw_stmtlike(self, new_lines, ln, col, end_ln, end_col):  # attempt to reparse only statement (or even only block header), if fails then no statement found above
+    try:
+        reparsed = _reparse_raw_stmtlike(self, new_lines, ln, col, end_ln, end_col)  # attempt to reparse only statement (or even only block header), if fails then no statement found above
+
+    except (SyntaxError, NodeError):  # statement alone in its synthetic wrapper did not parse (nothing was changed yet), the source as a whole may still be valid (statement split, merged with neighbors, commented out), so that decides
+        reparsed = False
+        self = self.root
+
+    if not reparsed:
         root = self.root
 
         if ((mode := root.a.__class__) is not Slice
